@@ -119,6 +119,7 @@ type trCtx struct {
 	stdoutObj    *types.Var                                     // closure whose constructor logs fmt.Printf (trans_units_perf.go)
 	synth        map[ast.Expr]string                            // synthetic expression nodes that carry a translated term (trans_units_jprinter.go)
 	writerMove   *trWriterMove                                  // the io.Writer parameter lives in a field of a local (trans_units_jprinter.go)
+	wAliases     []*trWAlias                                    // a struct field and a variable that are one io.Writer (trans_units_beancount.go)
 }
 
 type trPre struct {
@@ -594,6 +595,9 @@ func (c *trCtx) binary(x *ast.BinaryExpr) string {
 						return r
 					}
 				}
+				if r, ok := c.internedParamNil(other, x.Op); ok {
+					return r // a parameter of interned pointer type: nil is the zero value (trans_units_beancount.go)
+				}
 				trFail(x.Pos(), "comparison of %s with nil is outside the subset (only errors)", c.typeOf(other))
 			}
 			if x.Op == token.EQL {
@@ -869,6 +873,9 @@ func (c *trCtx) call(x *ast.CallExpr) string {
 	}
 	if r, ok := c.treeCallExpr(x); ok {
 		return r
+	}
+	if r, ok := c.regexpCall(x); ok {
+		return r // re.ReplaceAllString on a package-level regular expression of the prelude (trans_units_beancount.go)
 	}
 	if r, ok := c.perfGetExpr(x); ok {
 		return r
